@@ -191,10 +191,109 @@ fn one_run(run: u64, steps: u64, stream: u64) -> Vec<Value> {
     r.recs
 }
 
+/// learning-mode variant: peers announce no claims, routes are addresses learned from traffic; peers go silent (time out),
+/// close, restart - no learned address may keep pointing at a removed peer
+fn one_run_switch(run: u64, steps: u64, stream: u64) -> Vec<Value> {
+    use crate::payload::Frame;
+    let mut rng = rng(stream);
+    let mut sim: Sim<Frame> = Sim::new(stream);
+    let n = 4usize;
+    let mut cfg = base_config(Mode::Switch);
+    cfg.peer_timeout = PEER_TIMEOUT;
+    cfg.switch_timeout = 3600;
+    for _ in 0..n {
+        sim.add_node(false, &cfg);
+    }
+    for i in 1..n {
+        let a = sim.nodes[0].addr;
+        sim.connect(i, a);
+    }
+    sim.deliver_due();
+    sim.run_for(3);
+    let mut recs = vec![];
+    let mut step = 0u64;
+    let mut silenced: Option<(usize, i64)> = None;
+    let mut fno = 0u64;
+    for _ in 0..steps {
+        step += 1;
+        let x = rng.gen_range(0..100);
+        if let Some((j, until)) = silenced {
+            if sim.now >= until {
+                sim.faults.silent.remove(&(j as u16 + 1));
+                silenced = None;
+            }
+        }
+        let what;
+        if x < 35 {
+            for _ in 0..rng.gen_range(1..4) {
+                sim.tick();
+            }
+            what = "tick";
+        } else if x < 75 {
+            // every node talks: hosts behind node i use MAC 10+i (and sometimes a roaming MAC 99)
+            for i in 0..n {
+                if sim.faults.silent.contains(&(i as u16 + 1)) {
+                    continue;
+                }
+                fno += 1;
+                let src = if rng.gen_bool(0.15) { 99 } else { 10 + i as u8 };
+                let dst = [10u8, 11, 12, 13, 99, 0xff][rng.gen_range(0..6)];
+                let mut payload = vec![0u8; 12];
+                payload[..8].copy_from_slice(&fno.to_be_bytes());
+                let r = sim.iface(i, &eth_frame(mac(dst), mac(src), None, &payload));
+                let peers = sim.shape(i).0;
+                for d in &r.sent {
+                    if d.bytes.first() != Some(&0xff) && !peers.contains(&d.to.port()) {
+                        recs.push(json!({"op":"c12send","run":run,"node":i + 1,"to":d.to.port(),"peers":peers}));
+                    }
+                }
+            }
+            sim.deliver_due();
+            what = "traffic";
+        } else if x < 85 && silenced.is_none() {
+            let j = rng.gen_range(0..n);
+            sim.faults.silent.insert(j as u16 + 1);
+            silenced = Some((j, sim.now + PEER_TIMEOUT as i64 + rng.gen_range(5..40)));
+            what = "silence";
+        } else if x < 93 {
+            let j = rng.gen_range(0..n);
+            if silenced.map(|s| s.0) == Some(j) {
+                continue;
+            }
+            sim.close(j);
+            sim.deliver_due();
+            sim.restart(j, None);
+            let a = sim.nodes[(j + 1) % n].addr;
+            sim.connect(j, a);
+            sim.deliver_due();
+            what = "close";
+        } else {
+            let j = rng.gen_range(0..n);
+            if silenced.map(|s| s.0) == Some(j) {
+                continue;
+            }
+            sim.restart(j, None);
+            let a = sim.nodes[(j + 1) % n].addr;
+            sim.connect(j, a);
+            sim.deliver_due();
+            what = "restart";
+        }
+        for i in 0..n {
+            let d = sim.dump(i);
+            let peers: Vec<Value> = d["peers"].as_array().unwrap().iter().map(|p| json!({"a": p["a"], "n": p["n"], "inc": p["inc"], "expect": []})).collect();
+            let claims: Vec<Value> = d["claims"].as_array().unwrap().iter().map(|c| json!({"p": c["p"], "r": c["r"]})).collect();
+            let cache: Vec<Value> = d["cache"].as_array().unwrap().iter().map(|c| json!({"p": c["p"], "a": c["a"]})).collect();
+            recs.push(json!({"op":"c12dump","run":run,"step":step,"after":what,"t":sim.now - T0,"node":i + 1,"peers":peers,"claims":claims,"cache":cache}));
+        }
+    }
+    recs.push(json!({"op":"c12end","run":run,"panics":sim.total_panics(),"full_mesh":sim.full_mesh()}));
+    recs
+}
+
 pub fn run(tier: &str, out_path: &str) -> Value {
     let (runs, steps) = if tier == "quick" { (24u64, 60u64) } else { (300, 120) };
     let ids: Vec<u64> = (0..runs).collect();
-    let results = parallel_map(&ids, |_, k| one_run(*k + 1, steps, 12000 + *k));
+    let results = parallel_map(&ids, |_, k| if *k % 3 == 2 { one_run_switch(*k + 1, steps, 12000 + *k) } else { one_run(*k + 1, steps, 12000 + *k) });
     let mut t = Trace::create(out_path);
     for rs in &results {
         for r in rs {
